@@ -432,6 +432,7 @@ func (p *parser) parseDotMember(left ast.Expression) ast.Expression {
 		return &ast.BadExpression{From: period, To: p.idx}
 	}
 
+	p.insertSemicolon = true // an IdentifierName ends here, reserved word or not (7.9.1)
 	p.next()
 
 	return &ast.DotExpression{
